@@ -536,3 +536,74 @@ Proof.
   - unfold s1. rewrite lenN_app. reflexivity.
   - rewrite pupd_app_last in H2. unfold str_pay'. rewrite lenN_app in H2. exact H2.
 Qed.
+
+(** ---- the header of a Package: opcode, PkgLength, number of elements, ScopeBlock of the elements ---- *)
+Lemma pkg_facts : valid_opcode aml_pOpPackage /\ aml_pOpPackage <> aml_pOpNoop /\ aml_pOpPackage <> opFreed /\
+  is_prefix_op aml_pOpPackage = false /\ opcodeTableIndex aml_pOpPackage true = Some 11 /\
+  opInfo 11 = Some (aml_pOpPackage, 8, 66831) /\ hasFlag 8 aml_pOpFlagDeferParsing = false.
+Proof. repeat split; try discriminate; try reflexivity. exists 11. split; [reflexivity|discriminate]. Qed.
+
+Definition pkg_pays' (s : pstate) (off k n : N) : list pay :=
+  [mkPay aml_pOpPackage 11 (p_handle s) name_zero off 0 None; num_pay (p_handle s) W1 (off + 1 + k) n;
+   mkPay aml_pOpIntScopeBlock 113 (p_handle s) name_zero (off + 1 + k + 1) 0 None].
+
+Lemma next_pkg f s g pl pre k v n rest post sc scs a :
+  Rep (p_tree s) g pl -> g_free g = [] -> N.of_nat (length pl) + 3 < InvalidIndex ->
+  at_token (p_r s) pre (enc_op aml_pOpPackage ++ enc_pkglen k v ++ enc_fx [(W1, n)] ++ rest) post ->
+  n < 256 -> pkglen_admissible k v -> 1 + k <= v -> lenN pre + 1 + v <= r_len (p_r s) ->
+  p_scopeStack s = sc :: scs -> pget pl sc = Some a -> y_op a <> opFreed -> p_allBlocks s = false ->
+  wp False (parseNextObject (S (S (S (S (S (S (S f)))))))) s (fun res s' => res = ROk /\ exists t',
+    s' = after_blk s 2 (lenN pre + 1 + k + 1) (lenN pre + 1 + v) t' /\
+    Rep t' (g_args (g_head g sc) (N.of_nat (length pl)) 2) (pl ++ pkg_pays' s (lenN pre) k n)).
+Proof.
+  intros H Hfree Hroom Hat Hn Hadm Hv4 Hend Est Hsc Hlsc Hab.
+  destruct pkg_facts as (Hvalid & Hnoop & Hnf & Hnp & Hidx & Hinfo & Hdefer).
+  pose proof (rep_len_g _ _ _ H) as Hlg. pose proof (rep_len_pool _ _ _ H) as Hlp.
+  assert (Hsclt : sc < N.of_nat (length pl)) by (eapply pget_lt; eauto).
+  set (n0 := N.of_nat (length pl)) in *. change (lenN (enc_op aml_pOpPackage)) with 1 in *.
+  eapply (next_head _ aml_pOpPackage 11 s g pl pre _ post sc scs a);
+    [exact H|exact Hfree|lia|exact Hat|exact Hvalid|exact Hnoop|exact Hnf|exact Hidx|exact Est|exact Hsc|exact Hlsc|].
+  intros t1 H1. change (lenN (enc_op aml_pOpPackage)) with 1.
+  set (a1 := mkPay aml_pOpPackage 11 (p_handle s) name_zero (lenN pre) 0 None) in *.
+  set (pl1 := pl ++ [a1]) in *.
+  assert (Hl1 : length pl1 = S (length pl)) by (unfold pl1; rewrite app_length; cbn [length]; lia).
+  assert (Hn0 : pget pl1 n0 = Some a1) by apply pget_app_last.
+  eapply (objargs_other _ _ a1 (aml_pOpPackage, 8, 66831) _ _ pl1); [exact H1|exact Hn0|exact Hnf|exact Hnp|exact Hinfo|].
+  (* argument 0: the PkgLength *)
+  rewrite parseArgs_go by (change (argCount 66831) with 3; lia). change (argType 66831 0) with aml_pArgTypePkgLen.
+  pose proof (at_adv (p_r s) pre (enc_op aml_pOpPackage) _ post Hat) as Hat1. change (lenN (enc_op aml_pOpPackage)) with 1 in Hat1.
+  apply wp_bind.
+  eapply (arg_pkglen _ aml_pOpPackage 8 66831 _ _ (pre ++ enc_op aml_pOpPackage) k v (enc_fx [(W1, n)] ++ rest) post); [exact Hat1|exact Hadm| |exact Hab|exact Hdefer|].
+  { rewrite lenN_app. change (lenN (enc_op aml_pOpPackage)) with 1. exact Hend. }
+  cbv beta iota. apply wp_bind. apply wp_ret. change (pres_eqb ROk ROk) with true. cbv iota. change (w8 (0 + 1)) with 1.
+  rewrite lenN_app. change (lenN (enc_op aml_pOpPackage)) with 1. set (e := lenN pre + 1 + v).
+  (* argument 1: the number of elements *)
+  destruct (at_token_facts _ _ _ _ Hat) as (Ooff & Eend & Wb & Wc).
+  pose proof (lenN_enc_pkglen' k v Hadm) as Hlk.
+  pose proof (at_adv _ (pre ++ enc_op aml_pOpPackage) (enc_pkglen k v) (enc_fx [(W1, n)] ++ rest) post Hat1) as A.
+  rewrite Hlk, lenN_app in A. change (lenN (enc_op aml_pOpPackage)) with 1 in A.
+  set (pre2 := (pre ++ enc_op aml_pOpPackage) ++ enc_pkglen k v) in *.
+  assert (Hlpre2 : lenN pre2 = lenN pre + 1 + k) by (unfold pre2; rewrite !lenN_app, Hlk; reflexivity).
+  assert (Hat2 : at_token (set_pkgEnd_raw (set_offset_raw (p_r s) (lenN pre + 1 + k)) e) pre2 (enc_fx [(W1, n)] ++ []) (rest ++ post)).
+  { rewrite app_nil_r. apply at_pkg; [exact A| |cbn [r_len set_offset_raw]; unfold e; lia].
+    rewrite Hlpre2. change (lenN (enc_fx [(W1, n)])) with 1. unfold e. lia. }
+  eapply (args_fix [(W1, n)] _ aml_pOpPackage 8 66831 n0 1 _ (g_head g sc) pl1 pre2 [] (rest ++ post));
+    [exact H1|apply free_g_head|cbn [length]; lia|lia|change (argCount 66831) with 3; cbn [length]; lia|change (argCount 66831) with 3; lia| | |exact Hat2|].
+  { intros j w v' Hj. destruct j as [|[|j]]; cbn in Hj; inversion Hj. reflexivity. }
+  { cbn [fx_okb forallb]. assert (E : (n <? 2 ^ (fw_len W1 * 8)) = true) by (apply N.ltb_lt; exact Hn). rewrite E. reflexivity. }
+  intros t3 H3. cbn [length] in H3 |- *. change (1 + N.of_nat 1) with 2.
+  change (lenN (enc_fx [(W1, n)])) with 1. rewrite Hlpre2 in H3 |- *.
+  set (pl3 := pl1 ++ fx_pays (p_handle _) (lenN pre + 1 + k) [(W1, n)]) in *.
+  assert (Hl3 : length pl3 = S (S (length pl))) by (unfold pl3; rewrite app_length; cbn [fx_pays length]; lia).
+  (* the ScopeBlock *)
+  rewrite parseArgs_go by (change (argCount 66831) with 3; lia). change (argType 66831 2) with aml_pArgTypeTermList.
+  apply wp_bind.
+  eapply (arg_termlist _ _ _ _ _ pl3); [exact H3|reflexivity|lia|exact Hab|].
+  intros t4 H4. cbv beta iota.
+  apply wp_bind. eapply (wp_append_new False n0 _ _ _ pl3); [exact H3|exact H4|reflexivity|lia|].
+  intros t5 H5. change (pres_eqb RShort ROk) with false. cbv iota. apply wp_ret.
+  split; [reflexivity|]. exists t5. split.
+  - unfold after_blk. rewrite <- Hlp. replace (N.of_nat (length pl) + 2) with (N.of_nat (length pl3)) by lia. reflexivity.
+  - change (g_arg1 (g_args (g_head g sc) n0 1) n0) with (g_args (g_head g sc) n0 2) in H5.
+    unfold pkg_pays'. unfold pl3, pl1 in H5. rewrite <- !app_assoc in H5. cbn [app fx_pays] in H5 |- *. exact H5.
+Qed.
